@@ -278,21 +278,22 @@ class EnumGen:
         if k == 'det':
             return 'detailed_message = %s' % rust_str(val)
         if k == 'props':
-            return 'props(%s)' % ', '.join('%s = %s' % (key, rust_str(x) if t == 's' else (str(x) if t == 'i' else ('true' if x else 'false')))
-                                           for key, t, x in val)
+            return 'props(%s%s)' % (', '.join('%s = %s' % (key, rust_str(x) if t == 's' else (str(x) if t == 'i' else ('true' if x else 'false')))
+                                           for key, t, x in val), ',' if len(ident) % 2 else '')
         raise ValueError(k)
 
     def variant_attrs(self, v: VSpec):
         pgroups, igroups = v.strum_groups(self.e)
         out = []
+        tc = ',' if (sum(map(ord, v.ident)) + len(self.e.id)) % 3 == 0 else ''   # a trailing comma is legal in every list
         for g in pgroups:
-            out.append('    #[strum(%s)]' % ', '.join(self.strum_item_text(it, v.ident) for it in g))
+            out.append('    #[strum(%s%s)]' % (', '.join(self.strum_item_text(it, v.ident) for it in g), tc))
         for dline in v.docs:
             out.append('    #[doc = %s]' % rust_str(dline))
         for a in self.e.extra.get('variant_attrs', {}).get(v.ident, []):
             out.append('    ' + a)
         for g in igroups:
-            out.append('    #[strum(%s)]' % ', '.join(self.strum_item_text(it, v.ident) for it in g))
+            out.append('    #[strum(%s%s)]' % (', '.join(self.strum_item_text(it, v.ident) for it in g), tc))
         return out
 
     def variant_decl(self, v: VSpec):
@@ -326,7 +327,8 @@ class EnumGen:
                     'pfx': lambda: 'prefix = %s' % rust_str(val), 'phf': lambda: 'use_phf', 'pty': lambda: 'parse_err_ty = %s' % ty,
                     'pfn': lambda: 'parse_err_fn = %s' % fn, 'cis': lambda: 'const_into_str',
                     'crate': lambda: 'crate = %s' % rust_str(val)}[k]()
-        out = ['#[strum(%s)]' % ', '.join(text(it) for it in g) for g in e.strum_groups(self.sp)]
+        tc = ',' if sum(map(ord, e.id)) % 3 == 0 else ''
+        out = ['#[strum(%s%s)]' % (', '.join(text(it) for it in g), tc) for g in e.strum_groups(self.sp)]
         lay = e.extra.get('eattr_layout', 'one')
         if lay in ('rev', 'revsplit'):
             # the strum attributes after #[repr] and the other attributes
@@ -358,12 +360,20 @@ class EnumGen:
         for fn, t in self.dw_fns().items():
             out.append('fn %s() -> %s { %s }' % (fn, field_ty(t, inst=True) if t in ('T',) else field_ty(t).replace("'a", "'static"), field_val(t, 1)))
         ds = list(base_derives) + [self.sp_derive(d) for d in e.derives]
-        out.append('#[derive(%s)]' % ', '.join(ds))
+        via = e.extra.get('via_macro')
+        if via:
+            # the derives come from a macro_rules! wrapper, the item from its caller: two hygiene contexts
+            out.append('macro_rules! __with_derives_%s { ($($item:tt)*) => { #[derive(%s)] $($item)* }; }' % (e.name, ', '.join(ds)))
+            out.append('__with_derives_%s! {' % e.name)
+        else:
+            out.append('#[derive(%s)]' % ', '.join(ds))
         out += self.enum_attrs()
         out.append('%s enum %s%s%s {' % (e.extra.get('vis', 'pub'), e.name, self.gdecl, self.gwhere))
         for v in e.variants:
             out += self.variant_decl(v)
         out.append('}')
+        if via:
+            out.append('}')
         out.append('pub type Inst = %s%s;' % (e.name, self.ginst))
         return out
 
@@ -838,6 +848,9 @@ class EnumGen:
             out.append('        %s => %d,' % (self.pat_any(v), i))
         out += ['    }', '}',
                 'fn by_ident(id: &str) -> Inst { mk(id, 0, "").expect("ident") }',
+                'struct NotClone(i64);',
+                'fn _table_of_non_clone() -> i64 { let t = %s::new(%s); let t = t.transform(|_, v| NotClone(v.0 + 1)); let u = %s::from_closure(|k| NotClone(decl_index(&k))); %s }'
+                % (TB, ', '.join('NotClone(%d)' % i for i in range(len(en))), TB, ' + '.join(['0'] + ['t[%s::%s].0 + u[%s::%s].0' % (n, v.ident, n, v.ident) for v in en])),
                 'fn op_table(a: &[&str]) -> String {',
                 '    let mut t: %s<i64> = %s::filled(0);' % (TB, TB),
                 '    let mut out: Vec<String> = Vec::new();',
